@@ -66,7 +66,7 @@ def count_sequences(spec):
 
 def build(spec, seq, validate=True):
     """Returns (world, ok).  ok is False if the real structure departs from the model."""
-    w = SWorld(spec["nv"], spec.get("nu", 0), vclasses=spec.get("vclasses"))
+    w = SWorld(spec["nv"], spec.get("nu", 0), vclasses=spec.get("vclasses"), twin=bool(spec.get("twin")))
     ok = True
     exp = observe(w) if validate else None
     for k, op in enumerate(seq):
